@@ -10,6 +10,7 @@ import (
 	"sync"
 	"testing"
 
+	"github.com/ChainSafe/gossamer/internal/log"
 	"github.com/ChainSafe/gossamer/lib/runtime"
 	"github.com/ChainSafe/gossamer/lib/runtime/allocator"
 	"github.com/tetratelabs/wazero"
@@ -41,6 +42,8 @@ var (
 )
 
 func c10Setup() {
+	// the host functions log every failure at error level: keep the test output small
+	logger.Patch(log.SetLevel(log.Critical))
 	ctx := context.Background()
 	c10Rt = wazero.NewRuntimeWithConfig(ctx, wazero.NewRuntimeConfigInterpreter())
 	c10Compiled, c10Err = c10Rt.CompileModule(ctx, c10Wasm)
